@@ -110,7 +110,7 @@ def r1_clip_sources(ck, P):
         role = roles[owner[0]] + ('.alpha_map' if owner[1] else '')
         found[role] = c
         # guard atoms
-        bad = []
+        bad = []; has_flag = False
         def early_exit(t):
             # a test of the result of an earlier clip / emptiness call: an early exit, not a guard
             return t.op == 'br' and t.a and any(a[0] == 'call' for a in F.atoms(t.a[0]))
@@ -140,6 +140,11 @@ def r1_clip_sources(ck, P):
                     allowed = [(), ('image_common.have_clip_region',)]
                 if chain not in allowed:
                     bad.append('%s.%s' % (roles[k], '.'.join(q.split('.')[1] for q in chain)))
+                if chain == allowed[-1]:
+                    has_flag = True
+        if not has_flag and not bad:
+            ck.violation(R, F.name, 'have_clip_region test of the %s clip' % role, 'the clip region of %s is consulted without testing that object\'s have_clip_region: after the clip has been reset (set_clip_region (NULL) only clears the flag) the stale rectangles still clip the drawing' % role, c.loc())
+            continue
         if bad:
             ck.violation(R, F.name, 'guard of the %s clip' % role, 'the clip region of %s is consulted only when %s holds; the other image roles consult their alpha map\'s clip regardless, so the same picture clips differently as source and as mask' % (role, ' and '.join(sorted(set(bad)))), c.loc())
         else:
